@@ -23,5 +23,9 @@ pub fn fix_env() {
     std::env::set_var("CLAPMC_TRUE", "true");
     std::env::set_var("CLAPMC_X", "x");
     std::env::set_var("CLAPMC_COUNT", "3");
+    {
+        use std::os::unix::ffi::OsStrExt;
+        std::env::set_var("CLAPMC_NONUTF8", std::ffi::OsStr::from_bytes(b"w\xff"));
+    }
     std::env::remove_var("CLAPMC_UNSET");
 }
